@@ -50,6 +50,25 @@ def _deleg(t, pool=False):
     return ds
 
 
+def _deleg_mixed(t, first):
+    """several delegations of mixed formats in one container, single-pool entries after pool entries"""
+    ds = Delegations(atype=t)
+    det = (lambda: Labels(vlan_range='1-10')) if t == DelegationType.LABEL else (lambda: Capacities(core=4))
+    if first == 'definition':
+        d = Delegation(atype=t, delegation_id='del-a', aformat=DelegationFormat.PoolDefinition, pool_id='cpool1')
+        d.set_details(det())
+        ds.add_delegations(d)
+    else:
+        ds.add_delegations(Delegation(atype=t, delegation_id='del-a', aformat=DelegationFormat.PoolReference, pool_id='cpool2'))
+    s1 = Delegation(atype=t, delegation_id='del-b', aformat=DelegationFormat.SinglePool)
+    s1.set_details(det())
+    ds.add_delegations(s1)
+    d2 = Delegation(atype=t, delegation_id='del-c', aformat=DelegationFormat.PoolDefinition, pool_id='cpool3')
+    d2.set_details(det())
+    ds.add_delegations(d2)
+    return ds
+
+
 def _maint(n):
     m = MaintenanceInfo()
     m.add('w1', MaintenanceEntry(state=MaintenanceState.Maint, deadline=datetime(2024, 1, 1, tzinfo=timezone.utc)))
@@ -75,8 +94,10 @@ VOCAB = {
     'capacities': [lambda: Capacities(core=2, ram=8), lambda: Capacities(bw=100, unit=1, mtu=9000)],
     'capacity_hints': [lambda: CapacityHints(instance_type='fabric.c2.m8.d10')],
     'labels': [lambda: Labels(vlan='100', local_name='p1'), lambda: Labels(bdf=['0000:41:00.0', '0000:41:00.1'], mac='00:11:22:33:44:55')],
-    'capacity_delegations': [lambda: _deleg(DelegationType.CAPACITY), lambda: _deleg(DelegationType.CAPACITY, True)],
-    'label_delegations': [lambda: _deleg(DelegationType.LABEL), lambda: _deleg(DelegationType.LABEL, True)],
+    'capacity_delegations': [lambda: _deleg(DelegationType.CAPACITY), lambda: _deleg(DelegationType.CAPACITY, True),
+                             lambda: _deleg_mixed(DelegationType.CAPACITY, 'definition'), lambda: _deleg_mixed(DelegationType.CAPACITY, 'reference')],
+    'label_delegations': [lambda: _deleg(DelegationType.LABEL), lambda: _deleg(DelegationType.LABEL, True),
+                          lambda: _deleg_mixed(DelegationType.LABEL, 'definition'), lambda: _deleg_mixed(DelegationType.LABEL, 'reference')],
     'label_allocations': [lambda: Labels(vlan='5')],
     'capacity_allocations': [lambda: Capacities(core=1)],
     'reservation_info': [lambda: ReservationInfo(reservation_id='r1', reservation_state='Active'), lambda: ReservationInfo(error_message='boom')],
@@ -429,8 +450,8 @@ def eval_element(case):
     except Exception as ex:
         v.append((f'element-set-raises/{kind}/{p}', f'{type(ex).__name__}: {ex} {ctx}'))
         return {'v': v, 'nt': tuple(case), 'out': 'raise'}
-    e2 = element(t, kind)
     try:
+        e2 = element(t, kind)
         got = canon_field(e2.get_property(p))
     except Exception as ex:
         v.append((f'element-get-raises/{kind}/{p}', f'{type(ex).__name__}: {ex} {ctx}'))
@@ -461,7 +482,11 @@ def eval_element(case):
         except Exception as ex:
             v.append((f'element-unset-raises/{kind}/{p}', f'{how}: {type(ex).__name__}: {ex} {ctx}'))
             continue
-        got = canon_field(element(t, kind).get_property(p))
+        try:
+            got = canon_field(element(t, kind).get_property(p))
+        except Exception as ex:
+            v.append((f'element-get-raises/{kind}/{p}', f'{how}: {type(ex).__name__}: {ex} {ctx}'))
+            continue
         if p == 'image_type':
             continue                                            # deliberately not individually unsettable (stored with image_ref)
         if got is not None:
